@@ -230,7 +230,28 @@ func (th IntTheory) Bin(x side, op token.Token, a, b T, m MT) T {
 		if b.C != nil && !m.Signed {
 			return th.andMask(x, a, b.C, m)
 		}
+		if m.Signed && (a.C != nil || b.C != nil) {
+			// signed operand with a constant mask: work on the two's complement images
+			if a.C != nil {
+				a, b = b, a
+			}
+			um := MT{m.W, false}
+			two := intT(pow2(m.W))
+			ua := vc.define("tc", mkIte(mkCmp("<", a, intT64(0)), mkAdd(a, two), a))
+			umask := new(big.Int).Mod(b.C, pow2(m.W))
+			ru := th.andMask(x, ua, umask, um)
+			if umask.Bit(m.W-1) == 0 {
+				return ru
+			}
+			return vc.define("tcs", mkIte(mkCmp(">=", ru, intT(pow2(m.W-1))), mkSub(ru, two), ru))
+		}
 		r := vc.fresh("and", sortInt)
+		if m.Signed {
+			// only the non-negative case is characterised
+			vc.assume(mkAnd(mkCmp("<=", intT(m.Min()), r), mkCmp("<=", r, intT(m.Max())),
+				mkImp(mkAnd(mkCmp(">=", a, intT64(0)), mkCmp(">=", b, intT64(0))), mkAnd(mkCmp("<=", intT64(0), r), mkCmp("<=", r, a), mkCmp("<=", r, b)))))
+			return r
+		}
 		vc.assume(mkAnd(mkCmp("<=", intT64(0), r), mkCmp("<=", r, a), mkCmp("<=", r, b)))
 		return r
 	case token.OR:
@@ -348,7 +369,8 @@ func (th IntTheory) andMask(x side, a T, mask *big.Int, m MT) T {
 			res = mkAdd(res, term)
 		}
 	}
-	vc.assume(mkEq(a, sum))
+	// (sum first: a line of the form (= |sym| ...) would be taken for the definition of |sym| by the slicer)
+	vc.assume(mkEq(sum, a))
 	return vc.define("masked", res)
 }
 
